@@ -33,9 +33,12 @@ PointOf(D, C, ts) ==
 
 Check(o) ==
   CASE o.fam = "day" ->
-         LET e == DenoteDay(o.D, o.ts) IN
-         /\ Expect(o, "denote-day", o.val = e, e)
-         /\ (o.D.dk \in {"dow", "thisdow", "dom", "doy"} /\ IsTime(o.val) /\ FullyDated(o.val)) =>
+         \* a surface form that the frozen lexicon lists under two meanings (homograph, e.g.
+         \* "morgen" = tomorrow | morning) carries the second reading in D2: either is accepted
+         LET e == DenoteDay(o.D, o.ts)
+             e2 == IF o.D2.dk = "none" THEN e ELSE DenoteDay(o.D2, o.ts) IN
+         /\ Expect(o, "denote-day", o.val = e \/ o.val = e2, e)
+         /\ (o.D.dk \in {"dow", "thisdow", "dom", "doy"} /\ o.D2.dk = "none" /\ IsTime(o.val) /\ FullyDated(o.val)) =>
                Expect(o, "nearest-future", NearestFuture(o.D, o.ts, o.val), e)
     [] o.fam = "dayclock" ->
          LET e == Glue(DenoteDay(o.D, o.ts), DenoteClock(o.C)) IN
